@@ -11,6 +11,13 @@ import tlc
 # collisions (tests.py vs tests/ in one directory would both be module "tests")
 TOP_ALT = [[], ['tests.py'], ['tests/__init__.py', 'tests/test_a.py', 'tests/helper.py',
                              'tests/notes.txt', 'tests/tests.py', 'tests/ftests.py', 'tests/test_z.py']]
+# the same with compiled files (legacy layout: x.pyc beside / instead of x.py,
+# what `compileall -b` leaves behind); tests.py + tests.pyc is ONE module
+TOP_ALT_C = [['tests.pyc'], ['tests.py', 'tests.pyc'], ['tests.py', 'tests.pyc', 'tests.pyo'],
+             ['tests/__init__.pyc', 'tests/test_a.py', 'tests/test_a.pyc', 'tests/test_z.pyc',
+              'tests/helper.pyc', 'tests/tests.pyc', 'tests/notes.txt'],
+             ['tests/__init__.py', 'tests/__init__.pyc', 'tests/test_a.pyc', 'tests/tests.py',
+              'tests/tests.pyc', 'tests/ftests.pyc']]
 OPTIONAL = [
     'test_x.py', 'other.py', 'ftests.py',
     'sub/tests.py', 'sub/inner/tests.py', 'sub/inner/__init__.py', 'sub/ftests.py',
@@ -18,53 +25,97 @@ OPTIONAL = [
     'pkg/ftests.py',
     '1bad/tests.py', 'my-dir/tests.py', '.git/tests.py', 'node_modules/tests.py',
     '__pycache__/tests.py', 'CVS/tests.py', 'skipme/tests.py',
-    'tests2/test_c.py', 'deep/tests/test_d.py', 'deep/tests/tests.py',
+    'tests2/test_c.py', 'tests2/__init__.py', 'deep/tests/test_d.py', 'deep/tests/tests.py',
     'Zed/tests.py', '_under/tests.py', 'a1/tests.py',
+]
+OPTIONAL_C = [
+    'ftests.pyc', 'other.pyc', 'sub/tests.pyc', 'sub/tests.pyo', 'sub/ftests.pyc', 'sub/inner/tests.pyc',
+    'pkg/__init__.pyc', 'pkg/tests/__init__.pyc', 'pkg/tests/test_b.pyc', 'pkg/tests/atest.pyc',
+    'pkg/tests/helper.pyc', 'deep/tests/__init__.pyc', 'deep/tests/test_d.pyc', 'deep/tests/tests.pyc',
+    'Zed/tests.pyc', 'CVS/tests.pyc', '1bad/tests.pyc', '__pycache__/tests.pyc', 'a1/tests.pyc',
 ]
 NESTED_EXCLUDES = ('tests.py', 'tests/', 'ftests.py')   # would collide with sub/* named from root "sub"
 MPOOL = [[], [], ['sub'], ['!tests$'], ['^tests'], ['pkg', 'sub'], ['!sub', '!pkg'], ['test_'], ['zzz']]
+# --tests-pattern / --test-file-pattern, together and alone; all of them match
+# only "tests" / "ftests" among the top-level file stems
+PATS = [{'tests_pat': '^f?tests$', 'file_pat': '^(test_|atest)'}, {'tests_pat': '^f?tests$', 'file_pat': '^(test_|atest)'},
+        {'tests_pat': 'tests', 'file_pat': '_[a-d]$'}, {'tests_pat': '^(f|)tests2?$'}, {'file_pat': '^(a|helper)'}]
+# --ignore_dir values are directory names, not patterns: none of these is the
+# name of a directory of the universe (read as shell patterns they would match
+# skipme, sub, Zed, a1, pkg, deep, everything)
+IGN_LITERAL = ['sk[i]pme', 'su?', 'Z*', '[a-z]1', 'p?g', 'de*', '*']
+
+
+def spell_package(d, rng):
+    """-s / --package: a dotted name or a path (normalize_package): with
+    slashes, a trailing slash, backslashes, below the search path as seen from
+    the working directory (the tree is ./w) or absolute"""
+    return rng.choice([d.replace('/', '.'), d.replace('/', '.'), d, d + '/', 'w/' + d,
+                       '{top}/' + d, d.replace('/', '\\'), './w/' + d + '/'])
 
 
 def gen_case(cid, rng):
     paths = {}
-    for p in rng.choice(TOP_ALT):
+    # a third of the trees contain compiled files: beside their source, without
+    # it, as __init__.pyc; most of these runs use --usecompiled
+    withc = rng.random() < 0.35
+    for p in rng.choice(TOP_ALT_C if withc and rng.random() < 0.7 else TOP_ALT):
         paths[p] = 'file'
     dens = rng.choice([0.3, 0.5, 0.8])
     for p in OPTIONAL:
         if rng.random() < dens:
             paths[p] = 'file'
+    if withc:
+        for p in OPTIONAL_C:
+            if rng.random() < dens:
+                paths[p] = 'file'
     rootsel = rng.choice(['top', 'top', 'dup', 'nested', 'nested-rev'])
     # the nested root may itself sit where the outer walk never goes (ignored
     # or non-identifier directory): it is still a search path of its own
     inner = rng.choice(['sub', 'sub', 'skipme', 'CVS', '1bad'])
     if rootsel.startswith('nested'):
         paths = {p: k for p, k in paths.items() if not p.startswith(NESTED_EXCLUDES)}
-        paths.setdefault(inner + '/tests.py', 'file')
+        if not (withc and inner + '/tests.pyc' in paths):
+            paths.setdefault(inner + '/tests.py', 'file')
     roots = {'top': [''], 'dup': ['', ''], 'nested': ['', inner], 'nested-rev': [inner, '']}[rootsel]
-    alt = rng.random() < 0.4
-    pat = {'tests_pat': '^f?tests$', 'file_pat': '^(test_|atest)'} if alt else {}
+    alt = rng.random() < 0.45
+    pat = dict(rng.choice(PATS)) if alt else {}
     ignore = ['skipme'] if (rng.random() < 0.5 or (rootsel.startswith('nested') and inner == 'skipme')) else []
+    if rng.random() < 0.3:
+        ignore = ignore + rng.sample(IGN_LITERAL, rng.randint(1, 2))
+        rng.shuffle(ignore)
     if alt and rootsel.startswith('nested'):
-        paths = {p: k for p, k in paths.items() if p != 'ftests.py'}
-    if 'tests/ftests.py' in paths and alt and 'ftests.py' in paths:
-        del paths['ftests.py']
+        paths = {p: k for p, k in paths.items() if p not in ('ftests.py', 'ftests.pyc')}
+    if ('tests/ftests.py' in paths or 'tests/ftests.pyc' in paths) and alt:
+        paths.pop('ftests.py', None)
+        paths.pop('ftests.pyc', None)
+    usec = rng.random() < (0.75 if withc else 0.04)
     mp = rng.choice(MPOOL)
     args = ['--list-tests']
-    if alt:
-        args += ['--tests-pattern', pat['tests_pat'], '--test-file-pattern', pat['file_pat']]
+    if usec:
+        args += ['--usecompiled']
+    elif withc and rng.random() < 0.5:
+        args += ['-k']
+    if 'tests_pat' in pat:
+        args += ['--tests-pattern', pat['tests_pat']]
+    if 'file_pat' in pat:
+        args += ['--test-file-pattern', pat['file_pat']]
+    if rng.random() < 0.1:
+        args += ['--suite-name', 'alt_suite']
     for i in ignore:
         args += ['--ignore_dir', i]
     for m in mp:
         args += ['-m', m]
     # --package restricts the walk to the package's directory
     walk = None
-    if rootsel in ('top', 'dup') and rng.random() < 0.25:
-        cands = [d for d in ('pkg', 'sub', 'deep') if any(p.startswith(d + '/') for p in paths)]
+    if rootsel in ('top', 'dup') and rng.random() < 0.3:
+        cands = [d for d in ('pkg', 'sub', 'deep', 'pkg/tests', 'deep/tests', 'sub/inner')
+                 if any(p.startswith(d + '/') for p in paths)]
         if cands:
-            pk = rng.sample(cands, rng.randint(1, len(cands)))
+            pk = rng.sample(cands, rng.randint(1, min(3, len(cands))))
             walk = pk
             for d in pk:
-                args += ['-s', d]
+                args += [rng.choice(['-s', '-s', '--package', '--dir']), spell_package(d, rng)]
     # --package-path: a directory below the plain search path is also given as a
     # package of its own (the overlap must not load its files twice); such
     # entries are walked after the plain ones
@@ -76,19 +127,27 @@ def gen_case(cid, rng):
             roots = list(roots) + [d]
             root_pkgs = {d: 'stitchpkg'}
     return {'id': cid, 'paths': paths, 'roots': roots, 'args': args, 'pat': pat,
-            'ignore': ignore, 'mpats': mp, 'walk': walk, 'root_pkgs': root_pkgs}
+            'ignore': ignore, 'mpats': mp, 'walk': walk, 'root_pkgs': root_pkgs,
+            'usecompiled': usec, 'compiled': sorted(p for p in paths if p.endswith('.pyc'))}
 
 
 def run(chk, tier, seed, replay=None):
     chk.rule = ('(1) TLC: DiscoveryMC.tla - sanity of the definitions (Found without duplicates under '
                 'repeated / nested roots, pruning of non-identifier / ignored directories, package rule '
-                'needs __init__.py) over every parent-closed subset of a 16-entry universe x 4 root lists. '
-                '(2) real runs: trees drawn from a 32-entry universe (tests.py / tests package / f?tests, '
+                'needs __init__.py; --usecompiled: a compiled file counts only where its source is absent, '
+                '__init__.pyc makes a package, one file per module) over every parent-closed subset of a '
+                '17-entry universe x 4 root lists x {none, --usecompiled}. '
+                '(2) real runs: trees drawn from a 60-entry universe (tests.py / tests package / f?tests, '
                 'helper and non-.py files, namespace and regular packages, directories named 1bad, my-dir, '
-                '.git, node_modules, __pycache__, CVS, --ignore_dir, mixed-case and underscore names) x '
-                'default / alternative --tests-pattern and --test-file-pattern x roots {top}, {top, top}, '
-                '{top, sub}, {sub, top} x -m lists incl. negations x -s package lists; every tree is materialised on tmpfs in '
-                'two creation orders; each .py file logs its own import; TLC compares the import sequence '
+                '.git, node_modules, __pycache__, CVS, --ignore_dir, mixed-case and underscore names; a third '
+                'of the trees with real byte-code made by py_compile beside its source, without it, as '
+                '__init__.pyc, plus .pyo look-alikes, run with --usecompiled / -k / neither) x '
+                'default / four alternative --tests-pattern and --test-file-pattern settings x roots {top}, {top, top}, '
+                '{top, sub}, {sub, top} x -m lists incl. negations x -s / --package / --dir lists spelled as dotted '
+                'names or as paths (slashes, trailing slash, backslashes, relative to the working directory, absolute) x '
+                '--ignore_dir values incl. literal names with [ ] * ? x --suite-name; every tree is materialised on tmpfs in '
+                'two creation orders; each .py / .pyc file logs its own import and --list-tests prints the collected '
+                'tests; TLC compares the import sequence and the modules of the listed tests '
                 'with Discovery!Imported; distinct = distinct (tree, options)')
     chk.assumptions += ['imports of parent packages\' __init__.py are a side effect and not compared',
                         'symlinks and non-UTF-8 names are outside the universe',
@@ -110,15 +169,18 @@ def run(chk, tier, seed, replay=None):
     recs = []
     for c, r in zip(cases, results):
         T = fstree.tree_record(r['paths'], c['roots'], mpats=c['mpats'], ignore_dir=c['ignore'],
-                               walk=c.get('walk'), root_pkgs=c.get('root_pkgs'), **c['pat'])
+                               walk=c.get('walk'), root_pkgs=c.get('root_pkgs'),
+                               usecompiled=c.get('usecompiled', False), **c['pat'])
         crashed = ''
         if r['rc'] != 0:
             crashed = 'rc=%s %s' % (r['rc'], r['stderr'].strip().splitlines()[-1:] or '')
-        imported = [p for _m, p in r['imported'] if p in r['paths'] and not p.endswith('__init__.py')]
-        recs.append({'id': c['id'], 'what': 'find', 'T': T, 'imported': imported,
+        imported = [p for _m, p in r['imported']
+                    if p in r['paths'] and not p.endswith(('__init__.py', '__init__.pyc'))]
+        recs.append({'id': c['id'], 'what': 'find', 'T': T, 'imported': imported, 'listed': r['listed'],
                      'deleted': [], 'changed': [], 'crashed': crashed})
     chk.sample({'paths': sorted(cases[0]['paths']), 'roots': cases[0]['roots'], 'args': cases[0]['args'],
-                'creation_order': cases[0]['order'], 'imported': recs[0]['imported']})
+                'creation_order': cases[0]['order'], 'imported': recs[0]['imported'],
+                'listed': recs[0]['listed']})
     fd, path = tempfile.mkstemp(prefix='verif-disc-', suffix='.json')
     with os.fdopen(fd, 'w') as f:
         json.dump(recs, f)
@@ -129,6 +191,14 @@ def run(chk, tier, seed, replay=None):
     chk.add_tlc('Trace_Discovery', tres)
     verdicts = {m[1]: (m[2], m[3]) for m in tlc.printed_tuples(tres.out, 'DISC')}
     nonempty = 0
+    chk.extra['runs_with_usecompiled'] = sum(bool(c.get('usecompiled')) for c in cases)
+    chk.extra['runs_that_loaded_a_compiled_module'] = sum(any(p.endswith('.pyc') for p in rec['imported']) for rec in recs)
+    chk.extra['runs_with_source_beside_compiled_candidate'] = sum(
+        bool(c.get('usecompiled')) and any(p.endswith('.pyc') and p[:-1] in rec['imported'] for p in c['paths'])
+        for c, rec in zip(cases, recs))
+    chk.extra['runs_with_package_given_as_path'] = sum(
+        any(a in ('-s', '--package', '--dir') and ('/' in b or '\\' in b) for a, b in zip(c['args'], c['args'][1:]))
+        for c in cases)
     for c, r, rec in zip(cases, results, recs):
         v = verdicts.get(c['id'])
         if v is None:
@@ -141,6 +211,7 @@ def run(chk, tier, seed, replay=None):
         if clause == 'DRIFT':
             chk.extra['drift'] = chk.extra.get('drift', 0) + 1
         elif clause:
-            chk.violation(clause, '%s (%s): roots %s args %s imported %s' % (clause, arg, c['roots'], c['args'], rec['imported']),
+            chk.violation(clause, '%s (%s): roots %s args %s imported %s' % (clause, arg, c['roots'], c['args'], rec['imported'])
+                          + ('' if rec['listed'] == rec['imported'] else ' listed %s' % rec['listed']),
                           {'case': c, 'record': rec, 'stdout_tail': r['stdout'][-1500:], 'stderr_tail': r['stderr'][-1500:]})
     chk.extra['runs_that_imported_something'] = nonempty
